@@ -1,12 +1,84 @@
 /-
-  Oracle commands for C16 (stub: owns no commands yet).
+  Oracle commands for C16 (memory estimator):
+    c16 <numGPU> <overhead> <nproj> {pw pg}* <vw> <vg> <blk0|-> <nblocks> {w|- kv}*
+        <gp> <gf> <gqa> <onorm|-> <out|-> <temb|-> <ngroups> {lib <ngpus> {free min}*}*
+      -> fit=<0|1>,<vram> | <estimate of group 1> | <estimate of group 2> ...
+    where <estimate> = L=.. G=.. V=.. T=.. S=<a,b,..|-> Z=<a,b,..|-> kv=.. mw=.. mo=.. gf=.. gp=.. pw=.. pg=..
 -/
+import OllamaVerif.Model.Memory
 import Oracle.Util
 namespace Oracle.C16
-open Oracle
+open Oracle OllamaVerif.Memory
+
+def optNat : TP (Option Nat) := do
+  let t ← tok
+  if t == "-" then pure none
+  else match t.toNat? with
+    | some n => pure (some n)
+    | none => failure
+
+def pLib : TP Lib := do
+  let t ← tok
+  match t with
+  | "cpu" => pure .cpu
+  | "metal" => pure .metal
+  | _ => pure .other
+
+def pGpu : TP Gpu := do
+  let f ← nat
+  let m ← nat
+  pure ⟨f, m⟩
+
+def pGroup : TP (Lib × List Gpu) := do
+  let l ← pLib
+  let gs ← listOf pGpu
+  pure (l, gs)
+
+def pPair : TP (Nat × Nat) := do
+  let a ← nat
+  let b ← nat
+  pure (a, b)
+
+def pBlock : TP (Option Nat × Nat) := do
+  let w ← optNat
+  let kv ← nat
+  pure (w, kv)
+
+def commaOrDash (l : List Nat) : String :=
+  if l.isEmpty then "-" else joinWith "," (l.map toString)
+
+def showEst (e : Est) : String :=
+  let s := match e.split with
+    | none => "-"
+    | some l => commaOrDash l
+  s!"L={e.layers} G={e.graph} V={e.vram} T={e.total} S={s} Z={commaOrDash e.sizes} kv={e.kv} mw={e.memWeights} mo={e.memOut} gf={e.gF} gp={e.gP} pw={e.projW} pg={e.projG}"
 
 def handle (toks : List String) : Option String :=
   match toks with
+  | "c16" :: rest =>
+    runTP (do
+      let numGPU ← int
+      let overhead ← nat
+      let projs ← listOf pPair
+      let vw ← nat
+      let vg ← nat
+      let blk0 ← optNat
+      let blocks ← listOf pBlock
+      let gp ← nat
+      let gf ← nat
+      let gqa ← nat
+      let onorm ← optNat
+      let out ← optNat
+      let temb ← optNat
+      let groups ← listOf pGroup
+      let common : Inp :=
+        { lib := .other, gpus := [], overhead := overhead, projs := projs, vision := (vw, vg),
+          blk0 := blk0, blocks := blocks, graphPartial := gp, graphFull := gf, gqa := gqa,
+          outNorm := onorm, output := out, tokenEmbd := temb, numGPU := numGPU }
+      let fit := predictFit common groups
+      let ests := groups.map fun (l, gs) => showEst (estimate { common with lib := l, gpus := gs })
+      let f := if fit.1 then "1" else "0"
+      pure (joinWith " | " (s!"fit={f},{fit.2}" :: ests))) rest
   | _ => none
 
 end Oracle.C16
